@@ -15,6 +15,9 @@ Filter: random setLogLevelForNamespace / clearLogLevels histories on a real
 LogLevelFilterPredicate; for events with a non-empty namespace and a level the oracle is a
 12-line reference (longest configured dotted prefix, else default); the same decision is observed
 through a real FilteringLogObserver (exactly one of wrapped / negative observer gets the event).
+The same predicate is reconfigured between rounds of events (re-setting the level of an already
+configured namespace or of the default "", clearing, adding) and namespaces already looked up are
+looked up again: the answer must follow the reconfiguration.
 Events without level or namespace are don't-care and not generated.
 
 History: LimitedHistoryLogObserver(n), n in {None, 0, 1, ...}: after any stream every replayTo
@@ -31,14 +34,16 @@ TECHNIQUE = "runtime monitoring: delivery log with object identities vs registra
 RULE = ("random scenarios: 1-6 observers (recording / raising on a per-event pattern / raising on reports too), "
         "1-8 events with unique ids (some with log_trace), add/remove/re-add between events; filter: 0-8 "
         "configuration ops over a namespace universe with shared prefixes, empty segments and non-dotted "
-        "look-alikes (a vs ab), then 1-10 events; history: sizes None/0..8 and streams of 0..20 events with "
+        "look-alikes (a vs ab), then 1-10 events, then 0-3 further rounds of 1-3 reconfigurations (mostly changing existing "
+        "entries / the default) followed by re-lookups of namespaces seen before; history: sizes None/0..8 and streams of 0..20 events with "
         "replays in between (some into a target that raises at its j-th event); re-entrant scenarios: 2-5 observers, "
         "1-3 one-shot actions (remove self / remove other / add / publish a nested event) triggered by given events.  Distinct = scenario recipe; non-trivial = publisher scenario with >=1 raising "
         "observer, filter scenario with >=1 configured namespace, history stream longer than the size.")
 ASSUMPTIONS = ["trusted base: the recording observers and the three reference models of this module"]
 SHARDS = {"quick": 4, "thorough": 16}
 FLOORS = {"orig_deliveries": 20000, "reports_checked": 5000, "nested_reports_checked": 300, "filter_decisions": 20000,
-          "filter_prefix_hits": 3000, "filter_default_hits": 3000, "history_replays": 5000, "history_overflowing": 1000,
+          "filter_prefix_hits": 3000, "filter_default_hits": 3000, "filter_relookups": 10000,
+          "filter_relookups_with_changed_threshold": 3000, "history_replays": 5000, "history_overflowing": 1000,
           "reentrant_publishes": 10000, "removed_during_dispatch": 2000, "added_during_dispatch": 500, "nested_emits": 2000,
           "history_raising_replays": 5000, "history_replays_aborted_by_target": 1000}
 READY = True
@@ -236,7 +241,35 @@ def g_filter(rng):
         if not ns:  # events without a namespace are don't-care for the statement (documented: dropped)
             ns = g_ns(rng)
         events.append([ns, rng.choice(LEVELS)])
-    return {"default": rng.choice(LEVELS), "ops": ops, "events": events}
+    # further rounds on the SAME predicate: reconfigure (mostly re-setting the level of an already configured
+    # namespace or of the default ""), then look up namespaces that were already looked up before
+    more = []
+    known_ns = [o[1] for o in ops if o[0] == "set"]
+    for _ in range(rng.choice([0, 1, 1, 2, 3])):
+        ops2 = []
+        for _ in range(rng.randrange(1, 4)):
+            r = rng.random()
+            if r < 0.5 and known_ns:
+                ops2.append(["set", rng.choice(known_ns), rng.choice(LEVELS)])     # change an existing entry
+            elif r < 0.7:
+                ops2.append(["set", "", rng.choice(LEVELS)])
+            elif r < 0.77:
+                ops2.append(["clear"])
+            else:
+                ns = g_ns(rng)
+                known_ns.append(ns)
+                ops2.append(["set", ns, rng.choice(LEVELS)])
+        ev2 = []
+        for _ in range(rng.randrange(1, 7)):
+            if rng.random() < 0.75:
+                ev2.append([rng.choice(events)[0], rng.choice(LEVELS)])             # a namespace seen before
+            else:
+                ns = (rng.choice(known_ns) + "." + rng.choice(SEGS)) if known_ns and rng.random() < 0.6 else g_ns(rng)
+                ev2.append([ns, rng.choice(LEVELS)])
+        events = events + ev2
+        more.append([ops2, ev2])
+    first = events[:len(events) - sum(len(m[1]) for m in more)]
+    return {"default": rng.choice(LEVELS), "ops": ops, "events": first, "more": more}
 
 
 def ref_level(config, default, ns):
@@ -251,25 +284,36 @@ def ref_level(config, default, ns):
 def check_filter(ctx, sc):
     from twisted.logger import FilteringLogObserver, LogLevel, LogLevelFilterPredicate, PredicateResult
 
+    rounds = [(sc["ops"], sc["events"])] + [tuple(m) for m in sc.get("more", [])]
+    timeline = [(rnd, ns, lv) for rnd, (ops, events) in enumerate(rounds) for ns, lv in events]
     pred = LogLevelFilterPredicate(defaultLogLevel=LogLevel.lookupByName(sc["default"]))
     config, default = {}, sc["default"]
-    for op in sc["ops"]:
-        if op[0] == "clear":
-            pred.clearLogLevels()
-            config, default = {}, sc["default"]
-        else:
-            pred.setLogLevelForNamespace(op[1], LogLevel.lookupByName(op[2]))
-            if op[1]:
-                config[op[1]] = op[2]
-            else:
-                default = op[2]
     yes, no = [], []
     flt = FilteringLogObserver(yes.append, [pred], no.append)
-    for ns, lv in sc["events"]:
+    looked_up = {}   # namespace -> threshold the reference gave at its last lookup
+    applied = -1
+    for rnd, ns, lv in timeline:
+        while applied < rnd:   # (re)configure the same predicate before this round's events
+            applied += 1
+            for op in rounds[applied][0]:
+                if op[0] == "clear":
+                    pred.clearLogLevels()
+                    config, default = {}, sc["default"]
+                else:
+                    pred.setLogLevelForNamespace(op[1], LogLevel.lookupByName(op[2]))
+                    if op[1]:
+                        config[op[1]] = op[2]
+                    else:
+                        default = op[2]
         want_level, how = ref_level(config, default, ns)
+        if ns in looked_up:
+            ctx.count("filter_relookups")
+            if looked_up[ns] != want_level:
+                ctx.count("filter_relookups_with_changed_threshold")   # the answer must follow the reconfiguration
+        looked_up[ns] = want_level
         want = LEVELS.index(lv) >= LEVELS.index(want_level)
         ev = {"log_namespace": ns, "log_level": LogLevel.lookupByName(lv), "log_format": "x"}
-        wit = {"scenario": sc, "namespace": ns, "level": lv, "configured": dict(config), "default": default,
+        wit = {"scenario": sc, "round": rnd, "namespace": ns, "level": lv, "configured": dict(config), "default": default,
                "expected_threshold": want_level, "matched_by": how, "expected_pass": want}
         got_level = pred.logLevelForNamespace(ns)
         ctx.count("filter_decisions")
@@ -439,7 +483,10 @@ def check_reentrant(ctx, sc):
                       removed_during_dispatch=sorted(state["removed"]), added_during_dispatch=sorted(state["added"]))
             if got_stable != stable:
                 missing = [i for i in stable if i not in got]
-                if outer and missing and state["removed"] and len(got_stable) == len(set(got_stable)):
+                # causal signature: something registered EARLIER than the missed observer was removed during this
+                # dispatch (the list shifted under the publisher's iteration); the rest was served once, in order
+                shifted = [m for m in missing if any(r in before and before.index(r) < before.index(m) for r in state["removed"])]
+                if outer and missing and shifted == missing and got_stable == [i for i in stable if i not in missing]:
                     ctx.violation("publisher-remove-during-dispatch-skips-observer",
                                   "an observer removed an observer while an event was being dispatched; another observer, registered throughout, did not get the event",
                                   dict(w2, missing=missing))
